@@ -76,7 +76,7 @@ def run(ctx):
     cases = []
     for i in range(nlists):
         enc = ctx.rng.choice(["utf-8", "utf-8", "latin-1", "cp1251"])
-        cov = ctx.rng.choice([0.3, 0.6, 1.0])
+        cov = ctx.rng.choice([0.3, 0.6, 0.9, 0.95, 1.0])
         ngram = ctx.rng.choice([2, 3, 4])
         entries = trainer_io.gen_entries(ctx.rng, enc, n_distinct=ctx.rng.randint(3, 12))
         passwords = trainer_io.flatten(entries)
